@@ -8,6 +8,8 @@ and checks, with the independent codec in refash:
 
   C03.tx      layout of every written frame (prefix, stuffing, CRC, control byte,
               payload is a submitted one, re-encoding reproduces the bytes)
+              ackNum of every DATA frame = next frame number the host expects at that
+              moment according to the reference receiver (also on repeats)
   C05.window  at most one unacknowledged DATA frame; consecutive numbers;
               restart at 0 after RSTACK           (also reported as C01.noabandon)
   C05.same    same frmNum/payload on every repeat; reTx clear first, set after
@@ -54,6 +56,7 @@ class WireMonitor:
         # receive-path differential (opt-in, engines whose transport stays open): the specification-derived host receiver
         # is fed the same bytes; deliveries, reset notifications caused by frames, and the ACK/NAK numbers written must agree
         self.rxdiff = False
+        self.acknum_check = True
         self.rxmodel = R.HostReceiverModel()
         self.host_wr = []  # ('ack'|'nak', n) in write order
         self.host_up = []  # ('up', payload) | ('reset', code) caused by received frames
@@ -96,6 +99,12 @@ class WireMonitor:
     def _on_data_tx(self, now, fr, data):
         _, frm, retx, ack, payload = fr
         self.data_tx.append((now, frm, retx, payload))
+        if self.acknum_check and ack != self.rxmodel.rx:
+            # the ackNum field is the number of the next frame the sender expects, at the time of THIS transmission (a repeat is re-encoded,
+            # not replayed): a conforming peer discards a frame whose ackNum lies behind what it has already been acknowledged
+            self._v("C03.tx", "acknum", f"DATA frame {frm} (reTx={retx}) written at t={now:.6f} carries ackNum {ack}; the host has accepted frames up to {self.rxmodel.rx} (exclusive)")
+        if retx:
+            self._probe("retx_written")
         if self.payload_ok is not None and not self.payload_ok(payload):
             self._v("C03.tx", "payload", f"DATA frame carries a payload nobody submitted: {payload.hex()}")
         if self.failed:
@@ -151,8 +160,7 @@ class WireMonitor:
         """Call just before the chunk is handed to the host protocol."""
         now = self.loop.time()
         frames = self.rdec.feed(chunk)
-        if self.rxdiff:
-            self.rxmodel.feed(chunk)
+        self.rxmodel.feed(chunk)  # always: its expected number is the oracle for the ackNum of host DATA frames
         for fr in frames:
             k = fr[0]
             if k == "bad":
